@@ -90,6 +90,10 @@ var applyUnit = ev.Unit[ApplyCase]{
 			d, ops, _ := gen.Bulk(t)
 			return ApplyCase{Doc: d.Text(false), Patch: ref.OpsText(ops, false)}
 		}
+		if gen.OneIn(t, 400, "manyops") {
+			d, ops := gen.ManyOps(t)
+			return ApplyCase{Doc: d.Text(false), Patch: ref.OpsText(ops, false)}
+		}
 		doc := gen.Default.Root().Draw(t, "doc")
 		g := gen.NewOpGen(true).Calm()
 		if gen.OneIn(t, 4, "noisy") {
